@@ -4,6 +4,7 @@
    Run in this directory:  coqc -Q ../coq ACV Extract.v   (writes model.ml / model.mli here). *)
 From Coq Require Extraction.
 From Coq Require Import ExtrOcamlBasic ExtrOcamlString.
-From ACV Require Import Model.Cli.
+From ACV Require Import Model.Cli Model.Peg Model.PathGrammar.
 Extraction Language OCaml.
-Extraction "model.ml" Cli.run Cli.run_history Cli.last_ok Cli.spec_run Cli.spec_history.
+Extraction "model.ml" Cli.run Cli.run_history Cli.last_ok Cli.spec_run Cli.spec_history
+  PathGrammar.parse_path_with PathGrammar.default_fuel.
